@@ -38,6 +38,8 @@ ASSUMPTIONS = [
 IOPS = {"iadd": operator.iadd, "isub": operator.isub, "imul": operator.imul, "idiv": operator.itruediv}
 NP = {"iadd": np.add, "isub": np.subtract, "imul": np.multiply, "idiv": np.true_divide}
 IOP_NAMES = sorted(IOPS)
+STRIDED = [0]
+LATEST_USED = [0]
 
 
 def plan(tier):
@@ -45,7 +47,7 @@ def plan(tier):
             "required_monitors": ["inplace-model", "array-identity", "rhs-unchanged", "copy-independent",
                                   "container-copy-shallow", "deepcopy-independent", "view-shares-memory",
                                   "aliases-observe-update", "inplace-must-raise"],
-            "required_tags": ["ramses-dataset-copy"]}
+            "required_tags": ["ramses-dataset-copy", "non-contiguous-buffers", "update-through-returned-vector"]}
 
 
 def cases(ctx):
@@ -67,6 +69,8 @@ class Ent:
         self.refs = [("var", name)]    # where it is reachable from
         self.name = name
         self.dead = False
+        self.latest = None             # for Vectors: the object returned by the most recent in-place operator - what
+        #                                `g[key] *= y` stores back into g, while other holders keep the older object
 
 
 def _comps(obj):
@@ -82,10 +86,30 @@ def _new_obj(osy, rng, n, kind=None, dtype=None, unit=None):
     dtype = dtype or gen.draw_dtype(rng, 0.5)
     unit = unit if unit is not None else gen.draw_unit(rng, gen.draw_family(rng))
     shape = (n,) if n is not None else ()
+    strided = n is not None and rng.random() < 0.25
+    if strided:
+        STRIDED[0] += 1
+
+    def vals(k=0, nv=1, table=[None]):
+        v = gen.draw_values(rng, shape, dtype, small=True, nonzero=True)
+        if not strided:
+            return v
+        # the same numbers in a buffer that is not C-contiguous: a column of a 2-D table (the way positions and
+        # velocities are usually cut out of one (n, 3) array), every other element, or a reversed view
+        how = int(rng.integers(0, 3))
+        if how == 0:
+            t = np.zeros((n, 3), dtype=v.dtype)
+            t[:, k % 3] = v
+            return t[:, k % 3]
+        if how == 1:
+            t = np.zeros(2 * n, dtype=v.dtype)
+            t[::2] = v
+            return t[::2]
+        return np.ascontiguousarray(v[::-1])[::-1]
     if kind == "array":
-        return osy.Array(values=gen.draw_values(rng, shape, dtype, small=True, nonzero=True), unit=unit)
+        return osy.Array(values=vals(), unit=unit)
     nvec = int(rng.integers(1, 4))
-    return osy.Vector(*[gen.draw_values(rng, shape, dtype, small=True, nonzero=True) for _ in range(nvec)], unit=unit)
+    return osy.Vector(*[vals(k, nvec) for k in range(nvec)], unit=unit)
 
 
 def _check_all(res, label, ents, groups, views, steps):
@@ -94,6 +118,8 @@ def _check_all(res, label, ents, groups, views, steps):
         if e.dead:
             continue
         holders = [("var", e.obj)]
+        if e.latest is not None and e.latest is not e.obj:
+            holders.append(("the object returned by the last in-place operator", e.latest))
         for gname, g in groups.items():
             for k in list(g.keys()):
                 if g[k] is e.obj:
@@ -107,6 +133,8 @@ def _check_all(res, label, ents, groups, views, steps):
                 msg = compare_quantity(c.values, c.unit, q, 16 * rtol_for(c.dtype), None)
                 if msg:
                     mech = "alias-does-not-observe" if where != "var" else "object-differs-from-model"
+                    if where == "var" and e.latest is not None and e.latest is not e.obj:
+                        mech = "older-vector-reference-does-not-observe"
                     s, d = scale_dims(c.unit)
                     if not dims_close(d, q.dims) and d == () and str(c.dtype) not in ("float64", "int64"):
                         mech = "unit-dropped-for-dtype"
@@ -219,6 +247,8 @@ def run_case(case, ctx, res):
     rng = (np.random.default_rng(np.random.SeedSequence([20240217, 17, case["i"]])) if case.get("fixed")
            else ctx.rng(case["i"]))
     n = int(rng.integers(1, 6)) if rng.random() < 0.9 else None
+    strided0 = STRIDED[0]
+    latest0 = LATEST_USED[0]
     ents = []
     groups = {"g1": osy.Datagroup(), "g2": osy.Datagroup()}
     views = []
@@ -353,6 +383,10 @@ def run_case(case, ctx, res):
         if not _check_all(res, label, ents, groups, views, steps):
             return
     res.nontrivial = shared_inplace
+    if STRIDED[0] > strided0:
+        res.tag("non-contiguous-buffers")
+    if LATEST_USED[0] > latest0:
+        res.tag("update-through-returned-vector")
     res.digest_src = {"steps": steps, "n": n}
     res.sample = {"n": n, "objects": [(e.name, type(e.obj).__name__, str(_comps(e.obj)[0].dtype), e.refs) for e in ents][:6],
                   "steps": steps}
@@ -366,6 +400,11 @@ def _inplace(osy, rng, res, e, ents, groups, views, steps, label, n):
     """-> True if an update happened, False if it (legitimately) raised, None if a violation was recorded"""
     x = e.obj
     is_vec = type(x).__name__ == "Vector"
+    if is_vec and e.latest is not None and rng.random() < 0.6:
+        # as in `g[key] *= a; g[key] *= b`: the second update goes through what the first one returned, and every
+        # other holder of the Vector (another group, a variable) must still observe it - value and unit
+        x = e.latest
+        LATEST_USED[0] += 1
     opn = IOP_NAMES[int(rng.integers(0, 4))]
     kinds = ["same", "array", "array", "number", "ndarray", "quantity"]
     kind = kinds[int(rng.integers(0, len(kinds)))]
@@ -501,5 +540,7 @@ def _inplace(osy, rng, res, e, ents, groups, views, steps, label, n):
     # The model is re-synchronised with the numbers actually stored in the *returned* object, so that
     # legitimate rounding (float32 operands, converted units) does not accumulate over a history.
     e.q = _quant(r)
+    if is_vec:
+        e.latest = r
     res.count("aliases-observe-update")
     return True
